@@ -186,7 +186,8 @@ func checkC01(c *Ctx) {
 		"P2: every pipe is closed only by its single sender or after the wait group that counts all of its senders, and is closed at all",
 		"G2: WaitGroup.Launch/DoTimes/Add/StartGroup count a worker before it starts, Done is the deferred PostHook of the started operation",
 		"X5/PS1: ChanSend.Write is the only send site; its blocking arm cannot drop an item (no default), Read's blocking arm likewise",
-		"X1: every worker loop drops exactly the skipped element and goes on")
+		"X1: every worker loop drops exactly the skipped element and goes on",
+		"E8: the worker-group classification never aborts the group on a plain io.EOF or a skip (in-flight items of the other workers are not dropped)")
 	c.R.NotCov = append(c.R.NotCov, "equality of the output and input multisets as values", "input order for a single worker / Buffer", "the semantics of Go channels themselves")
 	ruleP1(c, pipePkgs, 11)
 	ruleP2(c, pipePkgs, 15)
@@ -194,6 +195,9 @@ func checkC01(c *Ctx) {
 	ruleX5(c)
 	rulePS1(c)
 	ruleX1(c, 10)
+	// the classification decides whether in-flight items survive: a plain io.EOF from one
+	// worker must stop that worker only (not abort the group), skip must continue
+	ruleE8(c)
 }
 
 func checkC02(c *Ctx) {
@@ -306,13 +310,15 @@ func checkC12(c *Ctx) {
 func checkC14(c *Ctx) {
 	c.R.Clauses = append(c.R.Clauses,
 		"L1: counter and cond are only touched under mu", "W1/W2/W2b/W3/W4 for the WaitGroup cond: Add broadcasts when the counter reaches zero (the waiter's own wake condition), the watcher broadcasts on cancel under the lock",
-		"V1: the invariant check dominates the store", "G2: Launch/DoTimes/Operation.Add account before they start")
+		"V1: the invariant check dominates the store", "G2: Launch/DoTimes/Operation.Add account before they start",
+		"L4: Wait checks the counter and parks in one critical section (no unlock/re-lock in between)")
 	c.R.NotCov = append(c.R.NotCov, "the counter as an arithmetic sum of completed calls")
 	owners := map[string]bool{"fun.WaitGroup": true}
 	lockRules(c, owners, map[string]int{"L1": 4, "L2": 1})
 	condRules(c, owners, map[string]int{"W1": 1, "W2": 1, "W2b": 1, "W3": 1, "W4": 2, "W6": 1})
 	ruleV1(c)
 	ruleG2(c)
+	ruleL4(c, owners, 3)
 }
 
 func checkC15(c *Ctx) {
@@ -330,13 +336,14 @@ func checkC15(c *Ctx) {
 
 func checkC16(c *Ctx) {
 	c.R.Clauses = append(c.R.Clauses,
-		"D1: list/stack nodes and headers are never copied by value", "D2/D2b: attach only detached elements, detach only members", "D3: forward and backward links change in pairs together with the length", "N3: no no-op relink")
+		"D1: list/stack nodes and headers are never copied by value", "D2/D2b: attach only detached elements, detach only members", "D3: forward and backward links change in pairs together with the length", "N3: no no-op relink", "D8: a container's root/head is only pointed at nodes that point back at it")
 	c.R.NotCov = append(c.R.NotCov, "equality with a sequence model over operation sequences", "JSON", "iterator values", "nil-receiver safety")
 	dtp := map[string]bool{"dt": true}
 	ruleD1(c, dtp, 20)
 	ruleD2(c, 4)
 	ruleD3(c, dtp, 6)
 	ruleN3(c, dtp)
+	ruleD8(c, dtp, 4)
 }
 
 func checkC17(c *Ctx) {
@@ -347,6 +354,7 @@ func checkC17(c *Ctx) {
 	ruleD1In(c, dtp, 5, "cmp.go")
 	ruleD2(c, 4)
 	ruleD3(c, dtp, 6)
+	ruleD8(c, dtp, 4)
 }
 
 func checkC18(c *Ctx) {
